@@ -95,7 +95,15 @@ def monitor(driver, doc, text, prep, o):
             return
     ctx.event("repeated_scans_compared")
     addrs = [int(t.split("::")[0], 16) for t in want if "::" in t and t.split("::")[0]]
-    if len(addrs) == len(want) and any(b <= a for a, b in zip(addrs, addrs[1:])):
+    listing_addrs = [int(a, 16) for a, _, _ in prep.expect]
+    increasing_listing = all(b > a for a, b in zip(listing_addrs, listing_addrs[1:]))     # relocatable-object style listings restart at 0
+    # address-only mode must report one address per hit, in the same order
+    ra = real.match(rp, prep.path, ret="list", search="all", only_addr=True, macros=driver.macros)
+    ctx.ran()
+    if ra[0] != "ok" or list(ra[1]) != [t.split("::")[0] for t in want]:
+        ctx.disagreement(case, f"address-only all-matches {str(ra[1])[:120]} is not one address per element of the scan {[t.split('::')[0] for t in want][:8]}")
+        return
+    if increasing_listing and len(addrs) == len(want) and any(b <= a for a, b in zip(addrs, addrs[1:])):
         ctx.disagreement(case, f"reported addresses are not increasing: {addrs[:8]}")
 
 
@@ -108,22 +116,35 @@ def long_listing_stratum(ctx, ws, n):
         size = rng.choice([2000, 5000, 12000, 30000])
         body = L.gen_listing(rng, 40, mnems=["mov", "add", "push", "pop", "lea", "cmp", "xor"], start=0x401000)
         insts, addr, planted = [], 0x401000, []
-        marks = sorted(set([size - 1, size - 2] + [rng.randrange(size) for _ in range(rng.randint(0, 5))])) if rng.random() < 0.8 else [rng.randrange(size)]
-        marks = [m for i, m in enumerate(marks) if i == 0 or m - marks[i - 1] >= 2 or True]
+        # marker = the two-instruction sequence 'hlt; cli'; planted at random places, at the very end, and so that it straddles
+        # index boundaries that block-wise processing would use (2^k - 1 for k = 9..14)
+        cand = [size - 2] + [rng.randrange(size - 2) for _ in range(rng.randint(0, 4))] + [2 ** k - 1 for k in range(9, 15) if 2 ** k < size - 2 and rng.random() < 0.7]
+        r5 = rng.random()
+        if r5 < 0.35:
+            bounds = [2 ** k - 1 for k in range(9, 15) if 2 ** k < size - 2]
+            cand = [rng.choice(bounds)] + ([size - 2] if rng.random() < 0.5 else [])      # the FIRST occurrence straddles a boundary
+        elif r5 < 0.5:
+            cand = [max(c for c in cand if c < size - 2)] if any(c < size - 2 for c in cand) else cand      # a single occurrence, late
+        marks, last = [], -5
+        for m in sorted(set(cand)):
+            if m - last >= 3:
+                marks.append(m)
+                last = m
         markset = set(marks)
         k = 0
         while len(insts) < size:
             src = body[k % len(body)]
             k += 1
             if len(insts) in markset:
-                insts.append(L.SInst(addr, "hlt", [], None, None, 1))
                 planted.append(format(addr, "x"))
-                addr += 1
+                insts.append(L.SInst(addr, "hlt", [], None, None, 1))
+                insts.append(L.SInst(addr + 1, "cli", [], None, None, 1))
+                addr += 2
             else:
                 insts.append(L.SInst(addr, src.mnem, list(src.ops), None, None, src.nbytes))
                 addr += src.nbytes
         lp = ws.write("long.s", L.render(insts, rng, labels=False))
-        rp = ws.write("long.yaml", "config:\n  mnemonics-full-match: true\npattern:\n  - hlt\n")
+        rp = ws.write("long.yaml", "config:\n  mnemonics-full-match: true\npattern:\n  - hlt\n  - cli\n")
         r = real.match(rp, lp, ret="list", search="all", only_addr=True)
         rf = real.match(rp, lp, ret="list", search="first", only_addr=True)
         ctx.ran(2)
@@ -131,7 +152,7 @@ def long_listing_stratum(ctx, ws, n):
         ctx.case(("long", size, tuple(planted)), True, stratum=f"long listing {size}")
         if r[0] != "ok" or list(r[1]) != planted:
             ctx.disagreement({"long_listing": True, "size": size, "planted": planted, "reported": str(r[1])[:300]},
-                             f"listing of {size} instructions with 'hlt' planted at {planted[-4:]} (last address {planted[-1]}): all-matches reported {str(r[1])[:200]}")
+                             f"listing of {size} instructions with 'hlt; cli' planted at {planted[-4:]} (last address {planted[-1]}): all-matches reported {str(r[1])[:200]}")
             continue
         if rf[0] != "ok" or list(rf[1]) != planted[:1]:
             ctx.disagreement({"long_listing": True, "size": size, "planted": planted}, f"first-match reported {str(rf[1])[:100]}, expected {planted[:1]}")
@@ -140,9 +161,9 @@ def long_listing_stratum(ctx, ws, n):
 
 
 def run_shard(ctx):
-    d = drive.Driver(ctx, feat, flags="random", styles=("runs", "runs", "tiny", "mixed"), judge_model=False, extra=monitor)
+    d = drive.Driver(ctx, feat, flags="random", styles=("runs", "runs", "tiny", "mixed", "multisec"), judge_model=False, extra=monitor)
     d.loop(2500, 250000)
-    long_listing_stratum(ctx, d.ws, ctx.share(24, 400))
+    long_listing_stratum(ctx, d.ws, ctx.share(48, 800))
 
 
 def replay(ctx, case):
